@@ -3,7 +3,7 @@
    Statements only.  Raw XML abstraction, XmlOK, canonical writer: Tablexml.v; names: Names.v. *)
 From Coq Require Import List ZArith NArith Lia Bool Arith.
 Import ListNotations.
-Require Import Vault Vaultproof Row Table Grid Tableabs Tablexml Tablexmlproof Tableproof6 Names Namesproof.
+Require Import Vault Vaultproof Row Table Grid Tableabs Tablexml Tablexmlproof Tableproof6 Names Namesproof Namesproof2.
 Open Scope Z_scope.
 
 (* ---- full statement (structural part): from any well-formed state whose rows fit the declared columns, after any
@@ -72,3 +72,24 @@ Example C07_table_name_classes_inhabited :
   table_name_ok [10;92;47;42;63;58;93;91]%N [39%N] [39%N] [32%N] [32;97;39;98;32]%N = true /\      (* " a'b " *)
   table_name_ok [10;92;47;42;63;58;93;91]%N [39%N] [39%N] [32%N] [32;39;98;32]%N = false.          (* " 'b "  *)
 Proof. repeat split; reflexivity. Qed.
+
+(* ---- named-range names.  The REPAIRED NamedRange.name setter (fixes/F36, F60) accepts exactly the range names of the
+        independent specification (letters, digits, '_' only — non-ASCII left to the application —, not digit-first,
+        not of A1 or R1C1 shape), for ALL strings, whenever the two classes it consults denote string.ascii_letters
+        and string.digits (finite obligations, discharged for the generated classes in Gen_Namesok.v on every run) ---- *)
+Theorem C07_named_range_name : forall letters digits sp : list N,
+  same_set letters lit_letters = true -> same_set digits lit_digits = true ->
+  forall s : str, nr_name_ok_fixed letters digits sp s = lo_range_name_ok sp s.
+Proof. exact nr_fixed_equiv. Qed.
+Print Assumptions C07_named_range_name.
+
+(* refuted for the PINNED setter: it accepts "1a", "R1C1" and "a\x01b", which the specification rejects (F36, F60) *)
+Theorem C07_named_range_pinned_refuted : forall s, In s [[49;97]; [82;49;67;49]; [97;1;98]]%N ->
+  nr_name_ok lit_nrf lit_letters lit_digits [32%N] s = true /\ lo_range_name_ok [32%N] s = false.
+Proof. exact nr_pinned_refuted_w. Qed.
+Print Assumptions C07_named_range_pinned_refuted.
+
+Example C07_named_range_classes_inhabited :
+  same_set lit_letters lit_letters = true /\ nr_name_ok_fixed lit_letters lit_digits [32%N] [32;97;95;49;32]%N = true /\   (* " a_1 " *)
+  nr_name_ok_fixed lit_letters lit_digits [32%N] [65;66;49;50]%N = false.                                              (* "AB12" *)
+Proof. repeat split; vm_compute; reflexivity. Qed.
